@@ -121,7 +121,9 @@ inductive Ev where
 inductive Op where
   | send (sender : Addr) (dest : String) (token : Token) (amount fee : Nat)
   | cancel (id : Nat) (who : Addr)
-  | incFee (id : Nat) (who : Addr) (token : Token) (add : Nat)
+  /-- `evm`: through the `increaseBridgeFee` precompile, called by `who`'s EVM address with the ERC-20 contract of `token`
+  (the added fee is taken from the caller's ERC-20 balance); otherwise `MsgIncreaseBridgeFee` -/
+  | incFee (id : Nat) (who : Addr) (token : Token) (add : Nat) (evm : Bool)
   | reqBatch (token : Token) (minFee baseFee : Nat) (feeReceive : String)
   | bridgeCall (sender refund : Addr) (to data memo : String) (coins : List (Token × Nat))
   /-- `crossChain` precompile called by `sender`'s EVM address with the ERC-20 contract of `token` -/
@@ -317,16 +319,19 @@ def incFeePayerOf (tx : Tx) (who : Addr) : Addr :=
   | .txSender => tx.sender
   | .unknown => who
 
-def doIncFee (s : State) (id : Nat) (who : Addr) (token : Token) (add : Nat) : State × Res :=
+def doIncFee (s : State) (id : Nat) (who : Addr) (token : Token) (add : Nat) (evm : Bool) : State × Res :=
   if id = 0 ∨ add = 0 then (s, .err) else
   match s.pool.find? (fun t => t.id = id) with
   | none => (s, .err)
   | some tx =>
+    -- `evm`: `IncreaseBridgeFeeMethod.Run` → `handlerERC20Token` (`transferFrom` out of the caller's ERC-20 balance, converted
+    -- to the caller's coins) → `AddUnbatchedTxBridgeFee(txID, caller, fee)`; a failure anywhere reverts the whole call
     if ¬ token < s.nTokens ∨ (incFeeTokenCheck = true ∧ tx.token ≠ token) ∨
-        getBal s.bal (incFeePayerOf tx who, token) < add then (s, .err)
+        getBal s.bal (incFeePayerOf tx who, token) < add ∨ (evm = true ∧ getBal s.erc (who, token) < add) then (s, .err)
     else
       ({ s with pool := insertDesc { tx with fee := tx.fee + add } (s.pool.erase tx),
-                bal := subBal s.bal (incFeePayerOf tx who, token) add }, .ok 0)
+                bal := subBal s.bal (incFeePayerOf tx who, token) add,
+                erc := subBal s.erc (who, token) (evm.toNat * add) }, .ok 0)
 
 /-- the batch with the highest nonce of a token (`GetLastOutgoingBatchByToken`) -/
 def lastBatch (t : Token) (bs : List Batch) : Option Batch :=
@@ -482,7 +487,7 @@ def endBlock (s : State) : State :=
 def step (s : State) : Op → State × Res
   | .send a d t am f => doSend s a d t am f
   | .cancel id who => doCancel s id who
-  | .incFee id who t add => doIncFee s id who t add
+  | .incFee id who t add evm => doIncFee s id who t add evm
   | .reqBatch t mf bf fr => doReqBatch s t mf bf fr
   | .bridgeCall a r to d m cs => doBridgeCall s a r to d m cs
   | .psend a d t am f => doPSend s a d t am f
